@@ -228,7 +228,10 @@ def run(ck):
         trip = [((fr, nu, de), ok_) for (fr, nu, de, ok_) in [
             (30, 0, 0, True), (60 << 16, 0, 0, True), (240 << 16, 0, 0, True), (0, 0, 0, False), (241 << 16, 0, 0, False),
             (30 << 16, 30, 1, True), (0, 30, 1, True), (0xFFFFFFFF, 30000, 1001, True), (500 << 16, 60, 1, True), (25 << 16, 240, 1, True), (0, 24000, 1001, True),
-            (30 << 16, 241, 1, False), (30 << 16, 1000, 1, False), (60, 480, 1, False), (25 << 16, 482, 2, False), (30 << 16, 65535, 2, False)]]
+            (30 << 16, 241, 1, False), (30 << 16, 1000, 1, False), (60, 480, 1, False), (25 << 16, 482, 2, False), (30 << 16, 65535, 2, False),
+            # millihertz / 1001-style time bases: numerators of 2^16 and above (a derivation that shifts the numerator by 16 bits wraps here)
+            (0, 65536, 1000, True), (30 << 16, 120000, 1001, True), (0, 131072, 1000, True), (0, 240000, 1000, True), (0, 262144, 2000, True), (0, 1000000, 10000, True),
+            (0, 241000, 1000, False), (30 << 16, 300000, 1001, False), (0, 480000, 1001, False), (0, 1000000, 1000, False), (0, 16000000, 1000, False)]]
         tcases = [{ix['source_width']: 640, ix['source_height']: 480, ix['frame_rate']: t[0], ix['frame_rate_numerator']: t[1], ix['frame_rate_denominator']: t[2]} for t, _ in trip]
         tout = run_impl(hbin, tcases)
         wrong = [(t, ok_, o) for (t, ok_), o in zip(trip, tout) if (o == 'rc 0') != ok_]
